@@ -56,8 +56,23 @@ namespace ST
 
 namespace _ST_PRIVATE
 {
+#ifdef ST_VERIF_HOOKS
+    // Verification hook (off unless ST_VERIF_HOOKS is defined): lets a test
+    // harness observe an assertion failure before the process is aborted.
+    typedef void (*verif_assert_hook_t)(const char *, int, const char *);
+    inline verif_assert_hook_t &verif_assert_hook() noexcept
+    {
+        static verif_assert_hook_t hook = nullptr;
+        return hook;
+    }
+#endif
+
     inline void assert_handler(const char *filename, int line, const char *message)
     {
+#ifdef ST_VERIF_HOOKS
+        if (verif_assert_hook())
+            verif_assert_hook()(filename, line, message);
+#endif
         std::fprintf(stderr, "%s:%d: %s\n", filename, line, message);
         std::abort();
     }
